@@ -235,7 +235,7 @@ GraphScenario c02({
    "Oracle: the node's reading through ipr:: interface classes only (every documented accessor and alias, optional parts, sequences by index and by iteration) equals the expectation built from the operation's inputs, at creation. "
    "Honest note: no schedule or fault matters for this property on the current code; it is decided here because conformance at creation is the operation-by-operation model check of every simulated run. "
    "The seed-independent prologue calls every opcode three times in 8 variants; per-factory counters are in 'probes' (factory.*). Non-trivial = at least one factory result checked.",
-   true, 0, 0, 0, 0, 0, 0, 0, 0, false, 0, true, true, 0, 2500, 250000, 20, 200 },
+   true, 0, 0, 0, 0, 0, 0, 0, 0, false, 0, true, true, 0, 6000, 250000, 20, 200 },
    weighted({ { G_generic, 3 }, { G_names, 3 }, { G_types, 3 }, { G_exprs, 3 }, { G_dirs, 3 }, { G_stmts, 3 }, { G_decls, 3 }, { G_units, 1 }, { G_forms, 2 }, { G_attrs, 2 },
               { G_setters, 2 }, { G_noise, 3 }, { G_macros, 2 } }));
 
@@ -260,7 +260,7 @@ GraphScenario c07({
    "Oracle after every step on every scope: elements in entry order; type() is the product of the declarations' types; scope[name] valid exactly for declared names; overload[type] is the first declaration of that name and type, "
    "invalid for other types; master() is that first declaration; decl_set() lists exactly the declarations sharing name and type in entry order; homogeneous scopes: singleton sets, position == index, lookup by name and selection by type. "
    "Non-trivial = at least one declaration entered.",
-   false, 0, 0, 1, 0, 0, 0, 0, 0, false, 0, true, false, 4, 2500, 250000, 15, 120 },
+   false, 0, 0, 1, 0, 0, 0, 0, 0, false, 0, true, false, 4, 6000, 250000, 15, 120 },
    weighted({ { G_decls, 20 } }, { { OP_make_subregion, 4 }, { OP_new_unit, 2 }, { OP_make_class, 4 }, { OP_make_union, 2 }, { OP_make_namespace, 3 }, { OP_make_enum, 4 }, { OP_make_closure, 1 },
               { OP_make_block, 4 }, { OP_block_new_handler, 4 }, { OP_make_where_region, 2 }, { OP_make_mapping, 5 }, { OP_make_lambda, 2 }, { OP_make_requires, 2 }, { OP_make_function_morphism, 2 },
               { OP_get_identifier_w, 8 }, { OP_get_operator_w, 2 }, { OP_get_conversion, 1 }, { OP_get_pointer, 4 }, { OP_get_qualified, 2 }, { OP_get_function2, 4 }, { OP_get_product_wh, 3 },
@@ -286,7 +286,7 @@ GraphScenario c12({
    "its unit's global region in exactly the modelled number of steps; global() only there; owner links for class, union, enum, namespace, closure, block, mapping and lambda; a handler's body region is enclosed by a region binding exactly "
    "the exception parameter, itself enclosed by the region enclosing the guarded block; home region, level and zero-based position of parameters/enumerators/bases (homogeneous-scope oracle); every unit's global namespace is unnamed and "
    "typed `namespace`; module units link back to their module. Not asserted: an owner for a handler's body region (the statement speaks of its enclosure only). Non-trivial = at least one region created.",
-   false, 0, 0, 0, 4, 1, 0, 0, 0, false, 0, true, true, 4, 2500, 250000, 15, 140 },
+   false, 0, 0, 0, 4, 1, 0, 0, 0, false, 0, true, true, 4, 6000, 250000, 15, 140 },
    weighted({ { G_units, 3 } }, { { OP_make_subregion, 12 }, { OP_make_class, 8 }, { OP_make_union, 5 }, { OP_make_namespace, 6 }, { OP_make_enum, 6 }, { OP_make_closure, 4 }, { OP_make_block, 10 },
               { OP_block_new_handler, 8 }, { OP_make_where_region, 5 }, { OP_make_mapping, 8 }, { OP_lexicon_make_mapping, 3 }, { OP_make_lambda, 6 }, { OP_make_requires, 5 }, { OP_make_function_morphism, 5 },
               { OP_plist_add_member, 8 }, { OP_mapping_param, 5 }, { OP_enum_add_member, 8 }, { OP_class_declare_base, 6 }, { OP_get_identifier_w, 6 }, { OP_get_pointer, 3 }, { OP_make_var, 3 },
@@ -323,7 +323,7 @@ GraphScenario c16({
    "Parameters from several mappings, lambdas and requires-expressions (arena addresses, so the heap policy decides the order inside the address-keyed map), elementary substitutions, general substitutions built by random subst() "
    "sequences with rebinding, queried after every step with every parameter of the run (inside and outside each domain), interleaved with noise. Oracle: a map parameter -> expression per substitution: in domain -> the latest "
    "bound expression; outside -> the queried parameter itself. Non-trivial = at least one substitution queried.",
-   false, 0, 0, 0, 0, 0, 1, 0, 0, false, 0, true, false, 4, 3000, 300000, 10, 100 },
+   false, 0, 0, 0, 0, 0, 1, 0, 0, false, 0, true, false, 4, 9000, 300000, 10, 100 },
    weighted({ }, { { OP_make_mapping, 8 }, { OP_make_lambda, 3 }, { OP_make_requires, 2 }, { OP_plist_add_member, 14 }, { OP_mapping_param, 8 }, { OP_make_elementary_substitution, 12 },
               { OP_make_general_substitution, 6 }, { OP_general_subst, 22 }, { OP_make_instantiation, 4 }, { OP_get_identifier_w, 8 }, { OP_get_literal_w, 5 }, { OP_make_plus, 3 }, { OP_get_pointer, 3 },
               { OP_new_unit, 1 }, { OP_noise_alloc, 6 }, { OP_noise_free, 4 } }));
